@@ -7,12 +7,20 @@ every method x argument menu x versions against the real server stack -> direct 
 import random
 import traceback
 
-from kmip.core import enums, utils
-from kmip.core.messages import messages
-from kmip.services.kmip_protocol import KMIPProtocol, RequestLengthMismatch
+# Whatever happens - also while importing the code under test - must end in the framework's VIOLATION protocol, never in
+# an uncaught traceback: an import failure is remembered and reported by run().
+IMPORT_ERROR = None
+try:
+    from kmip.core import enums, utils
+    from kmip.core.messages import messages
+    from kmip.services.kmip_protocol import KMIPProtocol, RequestLengthMismatch
 
-import clientdrv as D
-from clientdrv import Item, RS, RR, KV, OP
+    import clientdrv as D
+    from clientdrv import Item, RS, RR, KV, OP
+except BaseException as _e:       # noqa
+    if isinstance(_e, (KeyboardInterrupt, SystemExit)):
+        raise
+    IMPORT_ERROR = traceback.format_exc()
 
 HEADER = ('From PK Require Import Client.ClientCases.\nFrom Coq Require Import List ZArith.\n'
           'Import ListNotations.\nOpen Scope Z_scope.\n')
@@ -33,6 +41,11 @@ def shapes_for(op, version, rng, reasons, quick):
     msg = D.gen_text(rng, 1, 30)
     out = []
     out.append(('success', True, [Item(RS.SUCCESS, payload=op.payload(rng, version))]))
+    for flabel, mk in D.FALSY_PAYLOADS.get(op.name, []):
+        # values a payload field DOES carry although they are empty / zero: they must come back as such, not as absent
+        fp = mk(rng, version)
+        if fp is not None:
+            out.append(('success-falsy-' + flabel, True, [Item(RS.SUCCESS, payload=fp)]))
     if op.name == 'get':
         # wrapped keys: Key Wrapping Data with every optional sub-structure present / absent, pairwise different values
         for shape in ('both', 'enc-only', 'mac-only', 'both-no-params', 'enc-params-only', 'mac-params-only', 'split'):
@@ -101,11 +114,20 @@ def mangles(rng):
 
 
 # ---------------------------------------------------------------------- one scripted call
+_CTX = None
+
+
 def scripted_call(op, version, kwargs, items=None, mangle=None, plan=('whole',), raw=None):
     resp = D.Scripted(version, items=items, mangle=mangle, plan=plan, raw=raw)
     sock = D.ChunkSock(resp)
     cl = D.make_client(version, sock)
     out = D.run_call(lambda: D.call_pie(cl, op, kwargs))
+    if sock.sent and resp.request is None and _CTX is not None:
+        # wherever it happens: a request the server-side reader rejects is a violation with a concrete input
+        _CTX.violation({'client': 'pie', 'op': op.name, 'what': 'request-not-decodable', 'version': version.name},
+                       {'method': op.name, 'arguments': repr(kwargs)[:500], 'kmip_version': version.name,
+                        'request_hex': sock.sent[0].hex(), 'decoder_error': resp.request_error},
+                       '%s (%s) emitted a request the server-side decoder rejects: %s' % (op.name, version.name, resp.request_error))
     return out, resp, sock
 
 
@@ -443,6 +465,12 @@ def proxy_cases(ctx, quick):
                 got = D.pout_triple(obs)
                 w = {'client': 'KMIPProxy', 'method': op.name, 'kmip_version': version.name, 'response': label,
                      'response_items': [i.describe() for i in items], 'observed': D.pout_plain(obs), 'expected': repr(exp)}
+                if legal and label.startswith('success') and items[0].payload is not None:
+                    for fld, e_, g_ in D.proxy_data_mismatches(op.name, obs, items[0].payload)[:2]:
+                        w2 = dict(w)
+                        w2.update({'field': fld, 'expected': e_, 'got': g_, 'response_hex': resp.response_bytes.hex()})
+                        ctx.violation({'client': 'proxy', 'op': op.name, 'response': label, 'what': 'wrong-data', 'field': fld}, w2,
+                                      'KMIPProxy.%s: result field %s is %s, the successful answer carries %s' % (op.name, fld, g_, e_))
                 if got is not None and got != exp:
                     ctx.violation({'client': 'proxy', 'op': op.name, 'response': label, 'what': 'result-miscopied'}, w,
                                   'KMIPProxy.%s: status/reason/message of the result differ from the response' % op.name)
@@ -674,6 +702,26 @@ def switch_cases(ctx, quick):
     return cases, meta, rcases
 
 
+def argument_menu_cases(ctx, quick):
+    """Every method x version with NO optional argument, EVERY optional argument, and each optional argument alone, against
+    the real server stack: the server's reader must decode the request and the decoded fields must equal the arguments."""
+    rng = ctx.subrng('argmenus')
+    cases, meta, rcases = [], [], []
+    st = D.ServerStack(str(ctx.work))
+    try:
+        for op in D.OPS:
+            for version in D.VERSIONS:
+                if op.min_version is not None and version < op.min_version:
+                    continue
+                for label, kwargs in D.menus_for(op, rng, version):
+                    n = len(cases)
+                    server_call(ctx, st, op, version, kwargs, cases, meta, 'menu:' + label, rcases=rcases)
+                    ctx.count('argmenus.%s.%s' % (label if label in ('none', 'all') else 'one-alone', 'emitted' if len(cases) > n else 'refused-by-client'))
+    finally:
+        st.close()
+    return cases, meta, rcases
+
+
 def server_cases(ctx, quick):
     rng = ctx.subrng('server')
     cases, meta = [], []
@@ -701,7 +749,10 @@ def server_cases(ctx, quick):
 
 
 # ---------------------------------------------------------------------- corrupted VALUE bytes in well-formed structure
-import ttlvparse
+try:
+    import ttlvparse
+except BaseException:      # noqa
+    IMPORT_ERROR = IMPORT_ERROR or traceback.format_exc()
 
 
 def leaves(bs, off=0, end=None, out=None):
@@ -927,8 +978,12 @@ def optional_field_cases(ctx, quick):
 
 
 # ---------------------------------------------------------------------- request envelope
-KVER = {KV.KMIP_1_0: 'Request.V10', KV.KMIP_1_1: 'Request.V11', KV.KMIP_1_2: 'Request.V12', KV.KMIP_1_3: 'Request.V13',
-        KV.KMIP_1_4: 'Request.V14', KV.KMIP_2_0: 'Request.V20'}
+class _KVer(dict):
+    def __missing__(self, version):        # built on first use: nothing at import time depends on the code under test
+        return 'Request.V' + version.name[5:].replace('_', '')
+
+
+KVER = _KVer()
 
 
 def payload_body(req):
@@ -989,81 +1044,131 @@ def load_own_findings(ctx):
                 ctx.findings.append(f)
 
 
+def compare(ctx, name, cases, meta, shard=300, what=None, show=600):
+    if not cases:
+        ctx.broken.append({'kind': 'correspondence', 'name': name, 'detail': 'the stream produced no case at all', 'candidates': []})
+        return
+    bad = ctx.run_cases(name, HEADER, cases, 'check_ccase', shard=shard, what=what)
+    for i in bad[:20]:
+        m = meta[i] if meta is not None else None
+        ctx.log('%s disagreement' % name, repr(m)[:300], cases[i][:show])
+        ctx.disagreement(name, {'case': m, 'coq': cases[i][:show]})
+
+
+def s_pie(ctx, quick):
+    cases, meta = pie_cases(ctx, quick)
+    compare(ctx, 'pie', cases, meta, what='Client.interpret vs ProxyKmipClient methods on scripted responses', show=700)
+    ctx.sample({'pie_case': cases[0][:600]})
+
+
+def s_framing(ctx, quick):
+    cases, meta = framing_cases(ctx, quick)
+    compare(ctx, 'framing', cases, meta, shard=150, what='Framing.read vs KMIPProtocol.read on chunked transports')
+    ctx.sample({'framing_case': cases[len(cases) // 2][:400]})
+
+
+def s_calls(ctx, quick):
+    cases, meta = chunked_cases(ctx, quick)
+    compare(ctx, 'calls', cases, meta, shard=60, show=300,
+            what='EndToEnd.client_call vs ProxyKmipClient methods with the response split / cut by the transport')
+
+
+def s_proxy(ctx, quick):
+    cases, meta = proxy_cases(ctx, quick)
+    compare(ctx, 'proxy', cases, meta, what='Client.proxy_call vs KMIPProxy methods on scripted responses', show=700)
+    ctx.sample({'proxy_case': cases[0][:600]})
+
+
+def s_valuebytes(ctx, quick):
+    cases, meta = corrupt_value_cases(ctx, quick)
+    compare(ctx, 'valuebytes', cases, meta, shard=1000,
+            what='interpret o Undecodable = RaiseOther vs ProxyKmipClient on responses whose structure is intact but whose value bytes '
+                 'are not decodable (invalid UTF-8, Boolean not 0/1, non-zero padding), judged by an independent strict parser')
+
+
+def s_optfields(ctx, quick):
+    cases, meta = optional_field_cases(ctx, quick)
+    compare(ctx, 'optfields', cases, meta,
+            what='Client.interpret vs ProxyKmipClient on legal answers carrying optional Response Header / Batch Item fields')
+
+
+def s_requests(ctx, quick):
+    cases, meta = request_cases(ctx, quick)
+    compare(ctx, 'requests', cases, [m[:2] for m in meta], shard=40,
+            what='Request.enc_request / dec_request vs the bytes ProxyKmipClient emits (envelope; payload body opaque)')
+
+
+def s_argmenus(ctx, quick):
+    cases, meta, rcases = argument_menu_cases(ctx, quick)
+    compare(ctx, 'argmenus', cases, meta,
+            what='every method with every optional argument present / each alone / none, under each version, against the real '
+                 'KmipSession + KmipEngine: the server decodes the request and the decoded fields equal the arguments')
+    compare(ctx, 'argmenureq', rcases, None, shard=40, show=200,
+            what='Request.enc_request vs the bytes emitted for the argument menus')
+
+
+def s_server(ctx, quick):
+    cases, meta = server_cases(ctx, quick)
+    compare(ctx, 'server', cases, meta, show=700,
+            what='Client.interpret vs ProxyKmipClient methods against the real KmipSession + KmipEngine')
+    ctx.sample({'server_case': cases[0][:600]})
+
+
+def s_switch(ctx, quick):
+    cases, meta, rcases = switch_cases(ctx, quick)
+    compare(ctx, 'switch', cases, meta, show=500,
+            what='Client.interpret vs ProxyKmipClient on ONE client object whose kmip_version is reassigned between calls '
+                 '(all ordered pairs of versions; real KmipSession + KmipEngine)')
+    compare(ctx, 'switchreq', rcases, None, shard=40, show=300,
+            what='Request.enc_request under the CURRENT version vs the bytes emitted after a version switch')
+
+
+STREAMS = [('pie', s_pie), ('framing', s_framing), ('calls', s_calls), ('proxy', s_proxy), ('valuebytes', s_valuebytes),
+           ('optfields', s_optfields), ('requests', s_requests), ('argmenus', s_argmenus), ('server', s_server), ('switch', s_switch)]
+
+
+def guarded(ctx, name, fn, *a):
+    """Run one part of the check; whatever it raises (HarnessError is a BaseException on purpose) becomes a broken
+    correspondence, so that the run always ends in the framework's report and the other streams still run."""
+    try:
+        return fn(ctx, *a)
+    except (KeyboardInterrupt, SystemExit):
+        raise
+    except BaseException as e:      # noqa
+        tb = traceback.format_exc()
+        ctx.log('stream %s raised %s: %s' % (name, type(e).__name__, str(e)[:300]))
+        ctx.broken.append({'kind': 'correspondence', 'name': 'harness/c19.py:' + name,
+                           'detail': 'the stream raised instead of producing cases:\n' + tb[-2500:], 'candidates': []})
+        return None
+
+
 def run(ctx):
+    global _CTX
+    _CTX = ctx
     load_own_findings(ctx)
     ctx.cov['rule'] = ('scripted responder: every ProxyKmipClient method x KMIP 1.0-2.0 x response shapes (success with generated '
-                       'payload, every ResultReason in rotation, message present/absent/empty, operation echoed/absent/wrong, '
-                       'pending/undone, 0/2 items, corrupted bytes) x chunkings; a case is distinct by (method, version, shape, '
-                       'abstract response, outcome)')
+                       'payload incl. falsy-but-present values, every ResultReason in rotation, message present/absent/empty, '
+                       'operation echoed/absent/wrong, pending/undone, 0/2 items, corrupted bytes, optional header fields) x '
+                       'chunkings; argument menus (all optionals / each alone / none) against the real server; a case is distinct '
+                       'by (method, version, shape, abstract response, outcome)')
     quick = ctx.tier == 'quick'
     ctx.cov['trusted_extra'] = [
         'harness projections clientdrv.to_val / obj_attrs / secret_val (Python attribute reads -> model values); the scripted '
         'responder (responses written by the real encoder, requests decoded by the real server-side classes); the real '
-        'ResponseMessage decoder classifies corrupted bytes as decodable / undecodable',
+        'ResponseMessage decoder classifies corrupted bytes as decodable / undecodable; harness/ttlvparse.py + strict UTF-8 as the '
+        'independent notion of decodable; clientdrv.ttlv as independent TTLV writer for optional header fields',
         'modelled, not verified: TLS and socket behaviour (transport = list of non-empty chunks, end of list = EOF); response '
         'decoding (parameter `decode`; C01); ObjectFactory.convert (C05; compared through a canonical projection); request '
         'payload codecs (hypothesis of requests_decodable_partial, discharged by the server-stack correspondence)']
-    ctx.regen(only=['enums'])
-    ctx.prove('props/C19.v')
-    cases, meta = pie_cases(ctx, quick)
-    bad = ctx.run_cases('pie', HEADER, cases, 'check_ccase', what='Client.interpret vs ProxyKmipClient methods on scripted responses')
-    for i in bad[:20]:
-        ctx.log('pie disagreement', meta[i], cases[i][:700])
-        ctx.disagreement('pie', {'case': meta[i], 'coq': cases[i][:600]})
-    ctx.sample({'pie_case': cases[0][:600]})
-    fcases, fmeta = framing_cases(ctx, quick)
-    bad = ctx.run_cases('framing', HEADER, fcases, 'check_ccase', shard=150, what='Framing.read vs KMIPProtocol.read on chunked transports')
-    for i in bad[:20]:
-        ctx.disagreement('framing', {'case': fmeta[i], 'coq': fcases[i][:600]})
-    ccases, cmeta = chunked_cases(ctx, quick)
-    bad = ctx.run_cases('calls', HEADER, ccases, 'check_ccase', shard=60,
-                        what='EndToEnd.client_call vs ProxyKmipClient methods with the response split / cut by the transport')
-    for i in bad[:20]:
-        ctx.disagreement('calls', {'case': cmeta[i], 'coq': ccases[i][:300]})
-    pcases, pmeta = proxy_cases(ctx, quick)
-    bad = ctx.run_cases('proxy', HEADER, pcases, 'check_ccase', what='Client.proxy_call vs KMIPProxy methods on scripted responses')
-    for i in bad[:20]:
-        ctx.log('proxy disagreement', pmeta[i], pcases[i][:700])
-        ctx.disagreement('proxy', {'case': pmeta[i], 'coq': pcases[i][:600]})
-    vcases, vmeta = corrupt_value_cases(ctx, quick)
-    bad = ctx.run_cases('valuebytes', HEADER, vcases, 'check_ccase', shard=1000,
-                        what='interpret o Undecodable = RaiseOther vs ProxyKmipClient on responses whose structure is intact but whose '
-                             'value bytes are not decodable (invalid UTF-8, Boolean not 0/1, non-zero padding), judged by an independent '
-                             'strict parser')
-    for i in bad[:20]:
-        ctx.log('valuebytes disagreement', vmeta[i][:5])
-        ctx.disagreement('valuebytes', {'case': vmeta[i]})
-    ocases, ometa = optional_field_cases(ctx, quick)
-    bad = ctx.run_cases('optfields', HEADER, ocases, 'check_ccase',
-                        what='Client.interpret vs ProxyKmipClient on legal answers carrying optional Response Header / Batch Item fields')
-    for i in bad[:20]:
-        ctx.log('optfields disagreement', ometa[i])
-        ctx.disagreement('optfields', {'case': ometa[i], 'coq': ocases[i][:500]})
-    rcases, rmeta = request_cases(ctx, quick)
-    bad = ctx.run_cases('requests', HEADER, rcases, 'check_ccase', shard=40,
-                        what='Request.enc_request / dec_request vs the bytes ProxyKmipClient emits (envelope; payload body opaque)')
-    for i in bad[:20]:
-        ctx.log('request disagreement', rmeta[i][:2])
-        ctx.disagreement('requests', {'case': rmeta[i]})
-    scases, smeta = server_cases(ctx, quick)
-    bad = ctx.run_cases('server', HEADER, scases, 'check_ccase', what='Client.interpret vs ProxyKmipClient methods against the real KmipSession + KmipEngine')
-    for i in bad[:20]:
-        ctx.log('server disagreement', smeta[i], scases[i][:700])
-        ctx.disagreement('server', {'case': smeta[i], 'coq': scases[i][:600]})
-    ctx.sample({'server_case': scases[0][:600]})
-    wcases, wmeta, wrcases = switch_cases(ctx, quick)
-    bad = ctx.run_cases('switch', HEADER, wcases, 'check_ccase',
-                        what='Client.interpret vs ProxyKmipClient on ONE client object whose kmip_version is reassigned between calls '
-                             '(all ordered pairs of versions; real KmipSession + KmipEngine)')
-    for i in bad[:20]:
-        ctx.log('switch disagreement', wmeta[i], wcases[i][:500])
-        ctx.disagreement('switch', {'case': wmeta[i], 'coq': wcases[i][:600]})
-    bad = ctx.run_cases('switchreq', HEADER, wrcases, 'check_ccase', shard=40,
-                        what='Request.enc_request under the CURRENT version vs the bytes emitted after a version switch')
-    for i in bad[:20]:
-        ctx.disagreement('switchreq', {'case': wrcases[i][:300]})
-    ctx.sample({'framing_case': fcases[len(fcases) // 2][:400]})
-    ctx.sample({'proxy_case': pcases[0][:600]})
+    if IMPORT_ERROR is not None:
+        ctx.log('importing the code under test / the driver failed')
+        ctx.broken.append({'kind': 'correspondence', 'name': 'harness/c19.py:import',
+                           'detail': 'import failed:\n' + IMPORT_ERROR[-2500:], 'candidates': []})
+        return
+    guarded(ctx, 'regen', lambda c: c.regen(only=['enums']))
+    guarded(ctx, 'prove', lambda c: c.prove('props/C19.v'))
+    for name, fn in STREAMS:
+        guarded(ctx, name, fn, quick)
 
 
 # ---------------------------------------------------------------------- replay
